@@ -391,9 +391,11 @@ func streamParse(o *Out, r *rand.Rand, n int, thorough bool) {
 			checkInt(fmt.Sprintf("0x%x", v), v, false)
 			checkInt(fmt.Sprintf("0b%b", v), v, false)
 			checkInt(fmt.Sprintf("0X%X", v), v, false)
-		} else if v != math.MinInt64 {
-			checkInt(fmt.Sprintf("-0x%x", -v), v, false)
-			checkInt(fmt.Sprintf("-0b%b", -v), v, false)
+		} else {
+			// negative literals with a base prefix, MinInt64 included (its magnitude does not fit int64)
+			checkInt(fmt.Sprintf("-0x%x", uint64(-v)), v, false)
+			checkInt(fmt.Sprintf("-0b%b", uint64(-v)), v, false)
+			checkInt(fmt.Sprintf("-0X%X", uint64(-v)), v, false)
 		}
 	}
 	// decimal spellings with leading zeros denote the decimal number (there are no octal literals)
